@@ -326,6 +326,9 @@ def table_to_source_list(table, src_type=ComponentSource):
             if param in table.colnames:
                 # copy the value to our object
                 val = row[param]
+                # FITS/VOTable readers return NaN as a masked value
+                if val is np.ma.masked:
+                    val = np.nan
                 # hack around float32's broken-ness
                 if isinstance(val, np.float32):
                     val = np.float64(val)
